@@ -288,7 +288,9 @@ def main(argv):
                          and native.get("violated") == [] and "ensures" in native)
             if reproduced:
                 violations.append((ob["name"], path, ""))
-            elif ran_clean and not ob.get("inductive"):
+            elif ran_clean and not ob.get("inductive") and ("#post/" in ob["name"] or "#raise/" in ob["name"]):
+                # (only for the clauses the native run evaluates - post-conditions and raise clauses; a ghost assertion, a safety or
+                #  a call-site obligation INSIDE the function is not visible to a native run, which therefore cannot contradict it)
                 # the solver's counterexample was run against the real code and the contract HOLDS on it: the engine's model of this
                 # (changed) code and CPython disagree, so the refutation is not believed - the function counts as outside the subset
                 # for this run and the bounded layer decides (on the unchanged tree every obligation is proved, so this cannot occur)
